@@ -19,9 +19,11 @@ import (
 	"bytes"
 	"crypto/rand"
 	"encoding/json"
+	"errors"
 	"fmt"
 	"io"
 	"io/ioutil"
+	"math"
 	"mime/multipart"
 	"net/http"
 	"net/textproto"
@@ -127,7 +129,7 @@ func (m *Modifier) ModifyResponse(res *http.Response) error {
 		rng = strings.TrimSpace(rng)
 		if strings.HasPrefix(rng, "-") {
 			// Suffix range: the last n bytes.
-			n, err := strconv.Atoi(strings.TrimSpace(rng[1:]))
+			n, err := position(rng[1:])
 			if err != nil || n <= 0 {
 				res.StatusCode = http.StatusRequestedRangeNotSatisfiable
 				return nil
@@ -147,13 +149,13 @@ func (m *Modifier) ModifyResponse(res *http.Response) error {
 			return nil
 		}
 		// A position that is not a number makes the range set invalid.
-		start, err := strconv.Atoi(strings.TrimSpace(rs[0]))
+		start, err := position(rs[0])
 		if err != nil {
 			res.StatusCode = http.StatusRequestedRangeNotSatisfiable
 			return nil
 		}
 
-		end, err := strconv.Atoi(strings.TrimSpace(rs[1]))
+		end, err := position(rs[1])
 		if err != nil {
 			res.StatusCode = http.StatusRequestedRangeNotSatisfiable
 			return nil
@@ -215,6 +217,16 @@ func (m *Modifier) ModifyResponse(res *http.Response) error {
 	res.Header.Set("Content-Type", fmt.Sprintf("multipart/byteranges; boundary=%s", m.boundary))
 
 	return nil
+}
+
+// position parses a byte position or suffix length. Digits that do not fit an
+// int stand for a position beyond any content, which the caller clamps.
+func position(s string) (int, error) {
+	n, err := strconv.Atoi(strings.TrimSpace(s))
+	if errors.Is(err, strconv.ErrRange) && n > 0 {
+		return math.MaxInt, nil
+	}
+	return n, err
 }
 
 // randomBoundary generates a 30 character string for boundaries for mulipart range
